@@ -32,12 +32,12 @@ Step ==
       THEN LET rows == SetOf(c.rows)
                Alone(d, li) == {r[4] : r \in {x \in rows : x[1] = d /\ x[2] = 1 /\ x[3] = li}}
                With1(d, h) == {r[4] : r \in {x \in rows : x[1] = d /\ x[2] = h /\ x[3] = 1}}
-               bad == {r \in rows : r[4] \notin Alone(r[1], r[3]) \/ (r[3] = 2 /\ r[4] # 1) \/ (r[3] \in {3, 4} /\ r[4] \notin With1(r[1], r[2]))}
+               bad == {r \in rows : r[4] \notin Alone(r[1], r[3]) \/ (r[3] = 2 /\ r[4] # 1) \/ (r[3] \in {3, 4, 5, 6} /\ r[4] \notin With1(r[1], r[2]))}
                vac == {d \in {r[1] : r \in rows} : Alone(d, 1) # {0}}
            IN /\ UNCHANGED <<nexcl, ncells>> /\ nvac' = nvac + Cardinality(vac)
               /\ IF bad = {} THEN nok' = nok + 1 /\ UNCHANGED nrej
                  ELSE nrej' = nrej + 1 /\ UNCHANGED nok
-                      /\ Emit("REJECT", [id |-> 0, pat |-> "size-limit fixture", what |-> "host accepted/rejected differently from the piece alone, or the DFA size limit changed the verdict of the size limit <<piece, host, option combination#, compiled>>",
+                      /\ Emit("REJECT", [id |-> 0, pat |-> "size-limit fixture", what |-> "host accepted/rejected differently from the piece alone, or the DFA size limit / the case_insensitive option changed the verdict of the size limit <<piece, host, option combination#, compiled>>",
                                          got |-> Pick(bad), ast |-> <<>>, ng |-> 0])
       ELSE IF c.st = "mixed"
       THEN /\ nrej' = nrej + 1 /\ UNCHANGED <<nok, nexcl, ncells, nvac>>
